@@ -92,13 +92,14 @@ const FIELD_IDENTS: &[&str] = &[
     "x_y", "tag", "type_name", "data", "items", "flag", "opt", "inner", "extra_info", "radius", "top_left", "q", "limit",
     // identifier shapes outside the "one reading" domain (digits, capital runs, no underscore): the reference
     // for these is the third-party convert_case 0.6 `Case::Camel` that deserr documents it delegates to
-    "sha256sum", "userID", "md5SumHex", "x2", "a1_b2", "fooBar", "HTTPCode",
+    "sha256sum", "userID", "md5SumHex", "x2", "a1_b2", "fooBar", "HTTPCode", "ipv4addr", "utf8string", "port2", "is2nd",
+    "zeta", "eta", "theta", "iota", "kappa", "lambda", "omega",
 ];
 const VARIANT_IDENTS: &[&str] =
     &["Alpha", "Beta", "GammaDelta", "Unit", "Circle", "BigRedThing", "A", "Ab", "Rect", "Empty", "SomeOther", "Label", "HTTPGet", "IOError", "Vec2D", "V2"];
 const RENAMES: &[&str] =
     &["renamed", "Re Named", "a.b", "日本", "x-y", "UPPER", "camelCase", "snake_case", "Kind", "NAME", "value", "k[0]", "ß"];
-const TAGS: &[&str] = &["type", "kind", "tag", "t", "my tag", "kind.of", "name", "value"];
+const TAGS: &[&str] = &["type", "kind", "tag", "t", "my tag", "kind.of", "name", "value", "shape_kind", "Kind", "TYPE", "theTag"];
 
 #[derive(Clone, Copy, Debug, PartialEq)]
 enum RA {
@@ -223,9 +224,13 @@ enum Deny {
 
 fn gen_fields(r: &mut R, pool: &[PoolTy], pinned: bool, max: usize, avoid_key: Option<&str>) -> Vec<Field> {
     let n = r.below(max + 1);
+    gen_fields_n(r, pool, pinned, n, avoid_key)
+}
+
+fn gen_fields_n(r: &mut R, pool: &[PoolTy], pinned: bool, n: usize, avoid_key: Option<&str>) -> Vec<Field> {
     let mut fields: Vec<Field> = vec![];
     let mut tries = 0;
-    while fields.len() < n && tries < 100 {
+    while fields.len() < n && tries < 400 {
         tries += 1;
         let ident = r.pick(FIELD_IDENTS).to_string();
         if fields.iter().any(|f| f.ident == ident) {
@@ -427,10 +432,16 @@ fn emit_src_const(out: &mut Out, name: &str, src: &str) {
     out.code.push_str(src);
 }
 
-fn gen_struct(r: &mut R, out: &mut Out, name: &str, pool: &[PoolTy], pinned: bool) {
+fn gen_struct(r: &mut R, out: &mut Out, name: &str, pool: &[PoolTy], pinned: bool, wide: bool) {
     let (ra, fields) = loop {
         let ra = gen_ra(r);
-        let fields = gen_fields(r, pool, pinned, 6, None);
+        // a wide struct (> 20 fields) exercises everything that depends on the number of fields
+        let fields = if wide {
+            let n = 21 + r.below(8);
+            gen_fields_n(r, pool, pinned, n, None)
+        } else {
+            gen_fields(r, pool, pinned, 6, None)
+        };
         if keys_distinct(&fields, ra) {
             break (ra, fields);
         }
@@ -768,10 +779,11 @@ fn main() {
         let name = format!("G{k}");
         let usable: Vec<PoolTy> = pool.clone();
         let before = out.code.len();
-        let kind = r.below(20);
+        let kind = if k == 5 { r.below(9) } else { r.below(20) };
         let (generic, level) = match kind {
             0..=8 => {
-                gen_struct(&mut r, &mut out, &name, &usable, false);
+                // exactly one wide struct per program set
+                gen_struct(&mut r, &mut out, &name, &usable, false, k == 5);
                 (true, 1)
             }
             9..=13 => {
@@ -787,7 +799,7 @@ fn main() {
                 (true, 1)
             }
             _ => {
-                gen_struct(&mut r, &mut out, &name, &usable, true);
+                gen_struct(&mut r, &mut out, &name, &usable, true, false);
                 (false, 1)
             }
         };
